@@ -110,7 +110,7 @@ func (fi *FuncInfo) stableBetween(e ast.Expr, a, b token.Pos) bool {
 	}
 	fields := fi.fieldsIn(e)
 	stable := true
-	ast.Inspect(fi.Decl.Body, func(n ast.Node) bool {
+	fi.inspect(fi.Decl.Body, func(n ast.Node) bool {
 		as, ok := n.(*ast.AssignStmt)
 		if !ok || as.Pos() <= a || as.Pos() >= b {
 			return true
@@ -164,7 +164,7 @@ func exprShort(e ast.Expr) string {
 func (fi *FuncInfo) localVarsOfType(pkg, name string) []*types.Var {
 	var out []*types.Var
 	seen := map[*types.Var]bool{}
-	ast.Inspect(fi.Decl.Body, func(n ast.Node) bool {
+	fi.inspect(fi.Decl.Body, func(n ast.Node) bool {
 		id, ok := n.(*ast.Ident)
 		if !ok {
 			return true
@@ -267,7 +267,7 @@ func (fi *FuncInfo) precedingSimple(n, top ast.Node) []ast.Stmt {
 // usesOf returns the identifiers in fi's body that refer to v (excluding its definition).
 func (fi *FuncInfo) usesOf(v *types.Var) []*ast.Ident {
 	var out []*ast.Ident
-	ast.Inspect(fi.Decl.Body, func(n ast.Node) bool {
+	fi.inspect(fi.Decl.Body, func(n ast.Node) bool {
 		if id, ok := n.(*ast.Ident); ok && fi.Info.Uses[id] == v {
 			out = append(out, id)
 		}
@@ -374,4 +374,19 @@ func (fi *FuncInfo) loopComplete(loop ast.Stmt) bool {
 
 func regexpMatch(pat, s string) bool {
 	return regexp.MustCompile(pat).MatchString(s)
+}
+
+// returnsIn lists the return statements lexically inside n (not those of nested function literals).
+func returnsIn(n ast.Node) []*ast.ReturnStmt {
+	var out []*ast.ReturnStmt
+	ast.Inspect(n, func(m ast.Node) bool {
+		switch m := m.(type) {
+		case *ast.FuncLit:
+			return false
+		case *ast.ReturnStmt:
+			out = append(out, m)
+		}
+		return true
+	})
+	return out
 }
